@@ -56,7 +56,12 @@ class SpecDataset(metaclass=Plugin):
         ]
 
     def __getattr__(self, attr):
+        if not attr.startswith("_") and hasattr(SpecArray, attr):
+            return getattr(self.dset[attrs.SPECNAME].spec, attr)
         return getattr(self.dset, attr)
+
+    def __dir__(self):
+        return sorted(set(super().__dir__()).union(self._wrapper()))
 
     def __repr__(self):
         return re.sub(r"<.+>", f"<{self.__class__.__name__}>", str(self.dset))
@@ -68,11 +73,11 @@ class SpecDataset(metaclass=Plugin):
         For example:
             self.spec.hs() becomes equivalent to self.efth.spec.hs()
 
+        The methods are resolved by __getattr__ at call time against the dataset's
+        current efth variable so they keep working after it is replaced.
+
         """
-        for method_name in dir(self.dset[attrs.SPECNAME].spec):
-            if not method_name.startswith("_"):
-                method = getattr(self.dset[attrs.SPECNAME].spec, method_name)
-                setattr(self, method_name, method)
+        return [m for m in dir(self.dset[attrs.SPECNAME].spec) if not m.startswith("_")]
 
     def _check_and_stack_dims(self):
         """Ensure dimensions are suitable for dumping in some ascii formats.
